@@ -123,6 +123,8 @@ func init() {
 	register("C11", func(c *Ctx) error {
 		o := base
 		o.Handlers, o.VetoPct, o.NestedPct = true, 20, 10
+		// schemas that reference undefined states (dropped by Schema.Parse)
+		o.DanglingPct = 30
 		au := o
 		au.Shape = "autos"
 		mr := o
@@ -145,7 +147,7 @@ func init() {
 
 // compareRuns classifies how two executions of one case differ (h_rerun).
 func compareRuns(a, b *HistObs) int {
-	if !reflect.DeepEqual(a.Calls, b.Calls) || a.Crashed != b.Crashed {
+	if !reflect.DeepEqual(a.Calls, b.Calls) || a.Crashed != b.Crashed || !reflect.DeepEqual(a.Parsed, b.Parsed) {
 		return 1
 	}
 	if !reflect.DeepEqual(a.HLog, b.HLog) {
